@@ -34,7 +34,21 @@ func replayC04(i int, raw json.RawMessage, seed int64) hx.Result {
 	if speltOtherwise(&r) {
 		nt += "|name-spelling=" + r.Sp
 	}
+	if r.VK != "" {
+		nt += "|name-variant=" + variantToken(&r) + "," + r.VPos
+		// the specification names the added key by a token: the letters are the harness's
+		for n, k := range r.TopK {
+			if k == variantToken(&r) {
+				r.TopK[n] = variantName(&r, i)
+			}
+		}
+	}
 	if res := runC04(&r, i, seed); res != nil {
+		if r.VK != "" {
+			res.Key += "/name-variant=" + variantToken(&r) + "/placed=" + r.VPos
+			res.What += fmt.Sprintf(" [the wire event carries the extra member %s %s its %q member: a name that differs from %q only in letter case%s, i.e. another, unknown top-level key]",
+				variantLit(variantName(&r, i), i), r.VPos, r.VK, r.VK, map[string]string{"case": "", "fold": " (a non-ASCII letter that case-folds to the ASCII one)"}[r.VS])
+		}
 		if speltOtherwise(&r) {
 			// the tampering in the spelling it needs: the names of the keys stripped on receipt written with a \u escape
 			// (the same names) or in other letter case (other names)
@@ -140,7 +154,10 @@ func tamper(r *rec, orig []byte, idx int, seed int64) []byte {
 		con["third_party_invite"] = marshalRawMap(tpi)
 	}
 	ev["content"] = marshalRawMap(con)
-	if has["top_add"] {
+	if has["top_add"] && r.VK != "" {
+		// the added key is a variant of a protected name (another name: an unknown top-level key)
+		ev[variantName(r, idx)] = variantValue(r)
+	} else if has["top_add"] {
 		ev["zz_top"] = []json.RawMessage{json.RawMessage(`"extra"`), json.RawMessage(`{"a":[1,2]}`), json.RawMessage(`17`)}[idx%3]
 	}
 	if has["origin_chg"] {
@@ -195,6 +212,9 @@ func tamper(r *rec, orig []byte, idx int, seed int64) []byte {
 		ev["hashes"] = contentHash(recv)
 	default:
 		panic("harness: unknown hash mode " + r.HM)
+	}
+	if r.VK != "" {
+		return writeWithVariant(r, ev, variantName(r, idx), idx)
 	}
 	if len(esc) > 0 {
 		return writeObj(membersOf(ev, esc, idx%2 == 1, idx/2), idx%2 == 1)
